@@ -258,6 +258,8 @@ from . import removals
 
 from . import mustcall
 
+from . import inventory
+
 OBLIGATIONS = [
     ('C16.O1', 'documented constraint <-> guard', 'fps != 0; 1 <= max_frames_behind < SPECTATOR_BUFFER_SIZE; catchup_speed >= 1; num_players != 0 with revalidation against the new value; '
      'handle range rules per player type; duplicate handle; every handle in 0..num_players registered; unconstrained setters store unconditionally.', o1),
@@ -272,4 +274,6 @@ OBLIGATIONS = [
     ('C16.W', 'configuration wiring', 'at every call site that passes a field read `x.B` for a parameter `A` the callee has no same-typed parameter `B`; in every struct literal no parameter `B` is stored in field `A` while a same-typed parameter `A` / field `B` exists (builder -> constructor -> endpoint fields: timeouts, window, fps are not crossed); see rules/wiring.py', wiring.rule),
     ('C16.R', 'who may remove', 'every call that takes elements out of a collection this property\'s rules rely on (keyed removal from a map, or bulk / positional removal) is one of the reviewed sites in tables/removals.json; a lookup turned into a removal, a second prune, a clear on another path is reported; see rules/removals.py', removals.rule_for('C16')),
     ('C16.M', 'must-call floor', 'the calls listed for this property in tables/must_call.json are made on every path from the entry of their function to a normal return (interprocedural must-call): a new early return, fast path or extra condition in front of one of them is reported; see rules/mustcall.py', mustcall.rule_for('C16')),
+    ('C16.S', 'state inventory', 'every field of the structs this property\'s rules read (tables/state.json) is known, and is written only by its reviewed writers (or helpers only they call): a new field is new state across calls -- a cache, a flag, a stored deadline -- that nothing has shown to stay in step; a new writer is a second place that resets, re-arms or moves something; see rules/inventory.py', inventory.state_rule_for('C16')),
+    ('C16.E', 'error-exit inventory', 'every (function, GgrsError variant) pair constructed in the crate is listed in tables/error_exits.json: a call that can fail in a new way -- typically after effects whose requests are then dropped -- is reported; see rules/inventory.py', inventory.error_rule),
 ]
